@@ -3,7 +3,7 @@
 of the code (GalaxyIPAM.AllGuards), model-check the configuration with that guard dropped, one property at a time; every
 counterexample is a minimal schedule exploiting the missing guard. Run offline (minutes); the checks replay the corpus."""
 import json, subprocess, sys, os, hashlib
-GUARDS = ["unbindUid", "bindStaleLister", "bindUidGuard", "bindPoolSize", "resyncReread", "apiDoubleCheck",
+GUARDS = ["unbindUid", "bindStaleLister", "bindUidGuard", "bindPoolSize", "bindReuseReserve", "resyncReread", "apiDoubleCheck",
           "podlock:filter", "podlock:bind", "podlock:unbind", "podlock:resync", "podlock:apirelease",
           "dplock:filter", "dplock:unbind", "dplock:resync"]
 PROPS = ["LiveAnnotationsDisjoint", "LiveKeepsIP", "MemStoreAgreeM", "PoolCapM", "LiveAssignedToOwnNode",
@@ -14,6 +14,7 @@ PLAN = [  # cfg, overrides, guards relevant
     ("ipam_sts_immutable.cfg", {"MaxOps": "6"}, ["unbindUid", "resyncReread", "podlock:apirelease", "podlock:resync", "podlock:unbind", "apiDoubleCheck"]),
     ("ipam_sts_cloud.cfg", {"MaxOps": "5"}, ["unbindUid", "bindStaleLister", "podlock:unbind", "podlock:bind", "resyncReread"]),
     ("ipam_dp_pool_q.cfg", {"MaxOps": "5"}, ["bindPoolSize", "dplock:filter", "podlock:filter", "unbindUid"]),
+    ("ipam_dp_scale.cfg", {}, ["dplock:unbind", "podlock:unbind", "unbindUid", "dplock:filter", "bindReuseReserve", "bindUidGuard"]),
     ("ipam_dp_immutable_q.cfg", {"MaxOps": "5"}, ["dplock:unbind", "dplock:filter", "apiDoubleCheck", "unbindUid", "resyncReread"]),
 ]
 outdir = "/verif/spec/schedules"
